@@ -807,7 +807,7 @@ def labels_of(case, obs):
 class DSStream(Stream):
     name = "trace"
     coq_header = HEADER
-    n_quick = 3000
+    n_quick = 2000
     n_thorough = 30000
     scope_quick = 3
     scope_thorough = 4
